@@ -306,8 +306,67 @@ fn apply(mu: &Mutn, r: &mut Req, keys: &mut Vec<(String, String)>) -> bool {
     (r.method.clone(), r.target.clone(), r.headers.clone(), keys.clone()) != before
 }
 
+/// (3) The window arithmetic across calendar boundaries: signing instants at the end of a leap day, of a year, at midnight,
+/// a quarter of an hour after midnight (the skew window reaches back into the previous day), near 2^31 seconds; a sweep of
+/// the server clock, second by second, around both window edges (thorough: across the whole window for short expiries).
+fn part_instants(acc: &mut Acc, tier: Tier) -> usize {
+    let dates = ["20240229T235959Z", "20231231T235959Z", "20240301T000000Z", "20240229T001459Z", "20380119T031407Z", "19991231T235959Z", "20240615T120000Z"];
+    let expiries: &[i64] = &[1, 60, 900, 86_400, 604_800];
+    let mut cases: Vec<(&str, i64)> = Vec::new();
+    for d in dates {
+        for e in expiries {
+            cases.push((d, *e));
+        }
+    }
+    let n = cases.len();
+    par_items(acc, &cases, |a, ci, (date, e)| {
+        let t0 = amz_date_to_epoch(date).unwrap();
+        let mut r = Req::new("GET", "/bkt/a").header("host", HOST);
+        presign_v4(&mut r, SK, &Scope::new(AK, &date[..8], REGION, "s3"), date, &e.to_string(), &["host"]);
+        let mut offsets: Vec<i64> = Vec::new();
+        for c in [-900i64, 0, *e] {
+            for d in -6..=6 {
+                offsets.push(c + d);
+            }
+        }
+        if tier == Tier::Thorough && *e <= 900 {
+            offsets.extend(-910..=*e + 10);
+        }
+        // the day boundaries inside and around the window
+        for day_edge in [-86_400i64, 0, 86_400] {
+            let midnight = (t0.div_euclid(86_400)) * 86_400 + day_edge - t0;
+            for d in -1..=1 {
+                offsets.push(midnight + d);
+            }
+        }
+        offsets.sort();
+        offsets.dedup();
+        for off in offsets {
+            let now_ms = (t0 + off) * 1000;
+            let id = || format!("instant/{date}/expires={e}/now={off:+}s");
+            if !a.selected(&id) {
+                continue;
+            }
+            a.eval();
+            a.nontrivial(fnv(id().as_bytes()));
+            set_clock_ms(now_ms);
+            let keys = vec![(AK.to_owned(), SK.to_owned())];
+            let obs = observe(&SvcCfg { keys: Some(keys), access: AccessMode::Allow, ..Default::default() }, &r, body_one_frame(b""));
+            let reference = verify_v4_presigned(&r, now_ms, &secret_of);
+            a.outcome(&format!("instant ref={} impl={}", if reference.accepted() { "accept" } else { "reject" }, if obs.accepted_as.is_some() { "accept".to_owned() } else { format!("reject:{}", obs.verdict) }));
+            if let Some((kind, msg)) = judge(&reference, &obs, &secret_of) {
+                let edge = if off < 0 { "skew-boundary" } else { "expiry-boundary" };
+                a.fail(&format!("C06/{kind}/window/{edge}"), 5_000_000 + ci, id(), format!("signed at {date}, X-Amz-Expires={e}, server clock at {off:+} s: {msg}"), json!({"request": r.describe(), "reference": format!("{reference:?}")}));
+            }
+        }
+        s3s::verif_hooks::set_now(None);
+    });
+    n
+}
+
 pub fn run(ctx: &Ctx) -> (Acc, Report) {
     let mut acc = ctx.acc();
+    let n_instants = if ctx.replay.as_deref().is_none_or(|r| r.starts_with("instant/")) { part_instants(&mut acc, ctx.tier) } else { 0 };
     // histories first, single-threaded and in a fixed order (see authhist.rs)
     let (hist_n, hist_steps) = {
         use crate::props::authhist::Scheme;
@@ -433,7 +492,7 @@ pub fn run(ctx: &Ctx) -> (Acc, Report) {
         level: "exploration",
         rule: format!("{n_bases} presignable requests (GET/PUT x 7 keys (incl. a key that contains an escape-shaped text) x 5 extra-query shapes x signed headers {{host, host+meta}} x HTTP/1.1|2) x 14 X-Amz-Expires spellings x server-clock instants at signing time + {{-901,-900,-899,-1,0,1,E-1,E,E+1}} s and +-1 ms around both window edges; plus, inside the window, every single mutation/removal/duplication/case change of every query parameter, each signature digit, each credential field, method, each path byte, signed header value/removal, provider secret, and 2 equivalent rewrites. Oracle: reference verifier at the same instant. All judged cases are non-trivial; distinct by id."),
         exhaustive: true,
-        extra: json!({"histories": hist_n, "history_requests_executed": hist_steps, "history_rule": "all sequences of length 1..3 over 8 requests of this property's scheme(s) (two identities x honest / signed with the other identity's secret x two scopes) plus every pair led by a request of another scheme, on one service instance, single-threaded, fixed order; each verdict = the reference verdict of that request alone", "base_requests": n_bases}),
+        extra: json!({"histories": hist_n, "history_requests_executed": hist_steps, "history_rule": "all sequences of length 1..3 over 8 requests of this property's scheme(s) (two identities x honest / signed with the other identity's secret x two scopes) plus every pair led by a request of another scheme, on one service instance, single-threaded, fixed order; each verdict = the reference verdict of that request alone", "base_requests": n_bases, "signing_instant_x_expiry_cases": n_instants, "signing_instant_rule": "7 signing instants (end of a leap day, of a year, of a century; midnight; 00:14:59; 2^31-1 s; a plain noon) x 5 expiries x the server clock second by second around t0-900, t0, t0+E and around every midnight in reach (thorough: the whole window for E <= 900)"}),
         assumptions: vec![
             "wall clock owned through the verif-hooks seam (thread-local instant)".into(),
             "reference presigner validated on the documentation vector and against aws-sigv4's presigner on every base".into(),
